@@ -200,7 +200,10 @@ def splice(item, kind, clauses, loops, rewrites, rules, hints=()):
     return text
 
 
-def assemble(repo_dir, spec_name):
+def assemble(repo_dir, spec_name, probe=False):
+    """probe=True: vacuity probe - `assert(false)` is inserted at the start of every extracted function
+    that has a `requires` clause; Verus must then report one failed assertion per probe (a probe that
+    verifies means the precondition is contradictory)."""
     here = os.path.join(os.path.dirname(os.path.dirname(os.path.abspath(__file__))), "verus")
     with open(os.path.join(here, spec_name)) as fh:
         spec = fh.read()
@@ -256,6 +259,14 @@ def assemble(repo_dir, spec_name):
             item, _ = find_item(srcs[rel], kind, anchor, after)
             text = splice(item, kind, "\n".join(clauses), {k: "\n".join(v) for k, v in loops.items()}, rewrites, rules,
                           [(h[0], "\n".join(h[1])) for h in hints])
+            if probe and kind in ("fn", "impl-fn") and "requires" in "\n".join(clauses):
+                j = text.find("{", text.find("requires"))
+                # the body brace is the first '{' at line start after the clauses
+                m2 = re.search(r"(?m)^\s*\{\s*$|\)\s*\{\s*$|,\s*\n\{", text[text.find("requires"):])
+                k2 = text.find("\n{", text.find("requires"))
+                if k2 >= 0:
+                    text = text[:k2 + 2] + "\n        proof { assert(false); } // vacuity-probe\n" + text[k2 + 2:]
+                    rules["_probes"] = rules.get("_probes", 0) + 1
             out.append("// ---- extracted verbatim from %s: %s %s ----" % (rel, kind, anchor))
             out.append(text)
             extracted.append("%s::%s" % (rel, anchor))
